@@ -281,6 +281,68 @@ def check_reentrancy(chk):
     reent.threaded(chk, 'reentrancy', cases, seconds=2.0 if chk.tier == 'thorough' else 0.6)
 
 
+def connection_positions(chk):
+    """Through the Connection: one packet object carrying a block position is written on connections of versions either side
+    of the switch-over (and once built with another version's context); the word on the wire is packed for the version of the
+    connection it is written on."""
+    import sim, proto
+    from minecraft.networking.connection import Connection, ConnectionContext
+    from minecraft.networking.packets import Packet
+    from minecraft.networking.types import Position
+    lay = dict(zip(chk.tables['known_protocols'], chk.tables['layout']))
+    rng = chk.rng
+
+    class Probe(Packet):
+        id = 0x3f
+        packet_name = 'position probe'
+        definition = [{'location': Position}]
+    for trial in range(6):
+        vers = [rng.choice([47, 340, 404, 441, 442]), rng.choice([443, 444, 477, 757]), rng.choice([404, 757, 442, 443])]
+        if trial % 2:
+            vers = vers[::-1]
+        xyz = (rng.randrange(-2 ** 25, 2 ** 25), rng.randrange(-2 ** 11, 2 ** 11), rng.randrange(-2 ** 25, 2 ** 25))
+        reused = Probe()
+        reused.location = Position(*xyz)
+        net = sim.Net([sim.Server([], end='idle') for _ in range(len(vers) + 1)]).install()
+        what = None
+        try:
+            conn = Connection('localhost', 25565, username='user', allowed_versions={vers[0]}, handle_exception=lambda e, i: None)
+            for k, pv in enumerate(vers):
+                if lay.get(pv) not in ('yz', 'zy'):
+                    continue
+                conn.allowed_proto_versions = {pv}
+                try:
+                    conn.disconnect(immediate=True)
+                except Exception:
+                    pass
+                conn.connect()
+                srv = net.servers[net.nconn - 1]
+                ids = proto.Ids(pv)
+                srv.chunks.append(proto.frame(ids.login_success, ids.b_login_success()))
+                net.run_threads(conn)
+                foreign = Probe(context=ConnectionContext(protocol_version=rng.choice([404, 757])))
+                foreign.location = Position(*xyz)
+                for pkt, label in ((reused, 'used before on other connections'), (foreign, 'built with another version\'s context')):
+                    nb = len(srv.sends)
+                    conn.write_packet(pkt, force=True)
+                    fr = proto.parse_frames(b''.join(srv.sends[nb:]))
+                    chk.count('connection-position', [trial, k, pv, label], True)
+                    exp = struct.pack('>Q', spec_word(lay[pv] == 'zy', *xyz))
+                    if [f[1] for f in fr] != [exp]:
+                        what = 'a packet object %s, written on a protocol %d connection, carries position word %s; the %s packing is %s' % (
+                            label, pv, [f[1].hex() for f in fr], 'x|z|y' if lay[pv] == 'zy' else 'x|y|z', exp.hex())
+                        break
+                if what:
+                    break
+        except Exception as e:
+            what = 'history raised %s' % exn_name(e)
+        finally:
+            net.uninstall()
+        if what:
+            chk.violation('connection-position', 'connection-position:%d' % trial, {'case': {'versions': vers, 'xyz': list(xyz)}, 'observed': what},
+                          'one Connection through versions %s, position %r: %s' % (vers, xyz, what))
+
+
 def run(chk):
     bad = common.lint()
     if bad:
@@ -292,6 +354,7 @@ def run(chk):
     check_positions(chk)
     check_csp_records(chk)
     check_reentrancy(chk)
+    connection_positions(chk)
     chk.assumptions += ['struct.pack(">Q") / UnsignedLong, VarInt/VarLong (C03) carry the packed word', 'layout per version is observed by probing three triples that distinguish the layouts']
 
 
